@@ -74,6 +74,7 @@ TStep ==
           /\ PrintT(<<"DIAG", tid, l, IF ~CanAdvance(s, e.t) THEN {{"skipped_timer"}}
                                       ELSE IF Apply(Advance(s, e.t), e) = {} THEN {{"not_enabled"}}
                                       ELSE {Diff(y, e) : y \in Apply(Advance(s, e.t), e)}>>)
+          /\ PrintT(<<"STATE", tid, l, [i \in OpIds |-> <<s.ops[i].k, s.ops[i].st, s.ops[i].wake, s.ops[i].ph>>], s.subs, s.tm, s.va.q>>)
           /\ FALSE
   /\ l' = l + 1 /\ UNCHANGED tid
 TSpec == TInit /\ [][TStep]_tvars
